@@ -16,7 +16,7 @@ ID = "C01"
 MANIFEST = {
     "technique": "model-based property testing (Hypothesis): level-by-level slicing reference model (self-validated against NumPy on rectilinear data in every run) vs Content::getitem on generated physical encodings",
     "level_text": "Generated-input exploration: arrays in every list/option/record encoding x slice tuples of 1-4 items (integers incl. negative and overshooting, ranges with any bounds and steps, one ellipsis, newaxis, 1-2-d integer arrays with repeats, boolean masks, several broadcast arrays, index arrays with missing values, jagged integer/boolean arrays with missing entries, field and field-list items); the result must equal the reference model, an out-of-range index must raise and never return data, and only the documented unsupported combinations may be refused. On rectilinear inputs the model itself is compared with NumPy in the same run. Held on everything generated outside the recorded known findings.",
-    "level_note": "Trusted: akmodel.slicing, akmodel.decode, the /verif bridge and its re-statement of toslice() from src/python/content.cpp (the binding itself cannot be compiled: the translation of Python index objects is modelled, not tested).",
+    "level_note": "Trusted: akmodel.slicing, akmodel.decode, the /verif bridge and its re-statement of toslice() from src/python/content.cpp (the binding itself cannot be compiled: the translation of Python index objects is modelled, not tested). Index arrays inside slices are given in generated encodings too (node class, index width, offset origin, option encoding, every integer leaf width, strided leaves whose gaps hold out-of-range numbers); n-d NumpyArray operands may be strided windows of a larger array, taken by NumPy or by the library's own range slicing.",
 }
 RULE = ("case = (physical description, slice tuple); expected = akmodel.slicing.getitem on the decoded value (value | IndexError | may-refuse); "
         "non-trivial = >= 2 items or an array/jagged/missing item, and the result is non-empty or an error is expected; distinct by hash of the case")
